@@ -878,6 +878,45 @@ _op('argmax', lambda c, a, p: list(c.rt.argmax(a[0])),
     lambda t, a, p: [I(_exact_list(a[0]).index(max(_exact_list(a[0])))), I(max(_exact_list(a[0])))])
 
 
+def _norms(t, xs, ys):
+    n = [x * x + y * y for x, y in zip(xs, ys)]
+    # the secure keys carry up to a few units of truncation error each: the order must be decided with room to spare
+    if any(abs(a - b) <= 8 * t['u'] for i, a in enumerate(n) for b in n[:i]):
+        raise Undecided
+    return n
+
+
+def _ref_sorted_rows_norm(t, a, p):
+    xs, ys = _exact_list(a[0]), _exact_list(a[1])
+    n = _norms(t, xs, ys)
+    order = sorted(range(len(n)), key=lambda i: n[i], reverse=bool(p.get('reverse')))
+    return [[I(xs[i]) for i in order], [I(ys[i]) for i in order]]
+
+
+def _real_sorted_rows_norm(c, a, p):
+    rows = [[x, y] for x, y in zip(a[0], a[1])]
+    rows = c.rt.sorted(rows, key=lambda r: r[0] * r[0] + r[1] * r[1], reverse=bool(p.get('reverse')))
+    return [[r[0] for r in rows], [r[1] for r in rows]]
+
+
+# rows (points) sorted by a key that multiplies: squared norm
+_op('sorted_rows_norm', _real_sorted_rows_norm, _ref_sorted_rows_norm)
+
+
+def gen_rows(cfg, td, xs, ys, stmts, outputs, sender=0):
+    """Two coordinate lists 'x', 'y' given by one sender, every coordinate a separate input (own integrality)."""
+    m = cfg.m
+    st = []
+    for name, vals in (('x', xs), ('y', ys)):
+        vs = []
+        for i, v in enumerate(vals):
+            e = [v.numerator, v.denominator]
+            st.append(['input', [f'{name}{i}'], [], {'sender': sender % m, 'value': e, 'dummy': [1, 1] if e[1] == 1 else [1, 2]}])
+            vs.append(f'{name}{i}')
+        st.append(['mklist', [name], vs, {}])
+    return {'family': NAME, 'type': td, 'stmts': st + stmts, 'outputs': outputs, 'tags': []}
+
+
 def gen_fixed(cfg, td, values, stmts, outputs, sender=0):
     """values: list of exact dyadic Fractions given by one sender as a list input 'x'."""
     m = cfg.m
